@@ -716,6 +716,29 @@ class Engine:
         return Sym(z3.And(a.zn() == b.zn(),
                           z3.ForAll([j], z3.Implies(z3.And(j >= 0, j < a.zn()), a.at(j) == b.at(j)))))
 
+    def bytes_order(self, op, a, b):
+        """lexicographic order of byte strings of concrete lengths (Python's bytes ordering)"""
+        a, b = self.as_sbytes(a), self.as_sbytes(b)
+        if not (a.concrete_len() and b.concrete_len()):
+            raise Unsupported('ordering of symbolic-length bytes')
+        n, m = a.n, b.n
+        k = min(n, m)
+        lt_terms, prefix = [], z3.BoolVal(True)
+        for i in range(k):
+            lt_terms.append(z3.And(prefix, a.at(i) < b.at(i)))
+            prefix = z3.And(prefix, a.at(i) == b.at(i))
+        lt = z3.Or(*lt_terms, z3.And(prefix, z3.BoolVal(n < m))) if lt_terms else z3.BoolVal(n < m)
+        eq = z3.And(prefix, z3.BoolVal(n == m))
+        if isinstance(op, ast.Lt):
+            return Sym(lt)
+        if isinstance(op, ast.LtE):
+            return Sym(z3.Or(lt, eq))
+        if isinstance(op, ast.Gt):
+            return Sym(z3.And(z3.Not(lt), z3.Not(eq)))
+        if isinstance(op, ast.GtE):
+            return Sym(z3.Not(lt))
+        raise Unsupported('bytes comparison operator')
+
     def symmeth(self, name, o, args, kwargs):
         if isinstance(o, Sym):
             if name == 'bit_length':
@@ -1403,7 +1426,7 @@ class Engine:
                 if isinstance(op, ast.NotEq):
                     r = self.bytes_eq(a, b)
                     return Sym(z3.Not(ZB(r))) if isinstance(r, Sym) else (not r)
-                raise Unsupported('ordering of symbolic bytes')
+                return self.bytes_order(op, a, b)
             return isinstance(op, ast.NotEq)
         if isinstance(a, Sym) or isinstance(b, Sym):
             if isinstance(a, (int, bool, Sym)) and isinstance(b, (int, bool, Sym)):
